@@ -11,7 +11,20 @@ def rust(level, quick_plan, thorough_plan=None, timeout=None):
     return run
 
 
+def gen(module):
+    def run(pid, tier, replay, start):
+        import importlib
+        import os
+        import sys
+        sys.path.insert(0, os.path.join(vcommon.ROOT, "gen"))
+        mod = importlib.import_module(module)
+        return mod.run(pid, tier, replay, start)
+    run.gen_module = module
+    return run
+
+
 CHECKS = {
+    "C05": gen("c05"),
     "C01": rust("model_checking", [("std", "c01", [])], [("std", "c01", []), ("nostd", "c01", [])]),
     "C02": rust("model_checking", [("std", "c02", [])], [("std", "c02", []), ("nostd", "c02", [])]),
     "C04": rust("model_checking", [("std", "c04", [])], [("std", "c04", []), ("nostd", "c04", [])]),
